@@ -488,7 +488,7 @@ def run(tier):
     chk.cov['trusted_base'] = C.TRUSTED_BASE + [
         'C16: the compiler is a parameter of the model (cc); the file system is modelled as a tree of (name, bytes, mtime) with a logical '
         'clock; os.utime / os.walk / glob are trusted to implement it; verbose (-V), debug (-g) and lex-only modes are not modelled']
-    nrand = 80 if tier == 'quick' else 2500
+    nrand = 50 if tier == 'quick' else 2500
     hists = fixed_histories()
     nfixed = len(hists)
     for i in range(nrand):
